@@ -62,6 +62,12 @@ do-while / for(;;) with explicit exit) are not distinguished.
             freshly allocated object (make_shared / new) or by the end-of-input reset; nothing writes through the shared
             pointer (assignment to / mutator call on the pointee): copies of the iterator keep their own buffer alive
 
+ K1         for every item class with its own is_compatible_to(item_type): the accepted set (the predicate evaluated for EVERY
+            enumerator: equality / range / bit tests, casts, named locals, early returns, switch) equals the item types of the
+            classes deriving from it (from the `itemtype` constants and base lists); enumerators that are no class's itemtype
+            may only be accepted by the root class or when named in an explicit equality test.  This also validates the oracle
+            the dispatch rules use.  A predicate the evaluator cannot decide is analysis-broken.
+
 All eight clauses of DESIGN.md section 5 "C20" are implemented (clause 4, sibling agreement, follows from comparing every
 overload with the same oracle).  Instances are keyed by what the oracle REQUIRES (callback x case, callback x constness),
 so a dropped call / case / overload is a violated instance, not a vanished one.
@@ -2102,6 +2108,98 @@ def fresh_buffer_rules(fb, R, O):
         R.broken('InputIterator: no member function reads from the source')
 
 
+# ================================================================================================ is_compatible_to truth sets
+
+def _names_enumerator(f, value, pd):
+    """the predicate's body contains an explicit equality test of its parameter against the enumerator `value`"""
+    for n in f.all_nodes():
+        p = _cmp_parts(f, n['id']) if n.get('k') in ('binop', 'call') else None
+        if p is None or p[0] != '==':
+            continue
+        for a, b in ((p[1], p[2]), (p[2], p[1])):
+            x = f.sn(a)
+            if x is not None and x.get('k') == 'var' and x.get('d') == pd and f.const_value(b) == value:
+                return True
+    return False
+
+
+def compat_rules(fb, R, O):
+    """K1: for every class with its own static is_compatible_to(item_type) the accepted set -- the predicate evaluated for
+    EVERY enumerator -- equals the item types of the classes that derive from it (per the classes' `itemtype` constants
+    and base lists).  Enumerators that are no class's itemtype (undefined, relation_member_list_with_full_members) may only
+    be accepted by the root class or by a predicate that names them in an explicit equality test."""
+    def own_itemtype(rec):
+        for st in rec.statics:
+            if st['name'] == 'itemtype' and st.get('cv') is not None:
+                return int(st['cv'])
+        return None
+
+    def eff_itemtype(full, seen=None):
+        seen = seen or set()
+        if full in seen:
+            return None
+        seen.add(full)
+        rec = O.rec_by_full.get(full)
+        if rec is None:
+            return None
+        v = own_itemtype(rec)
+        if v is not None:
+            return v
+        for b in rec.bases:
+            v = eff_itemtype(b['t'], seen)
+            if v is not None:
+                return v
+        return None
+
+    def derives(full, base_full, seen=None):
+        if full == base_full:
+            return True
+        seen = seen or set()
+        if full in seen:
+            return False
+        seen.add(full)
+        rec = O.rec_by_full.get(full)
+        return rec is not None and any(derives(b['t'], base_full, seen) for b in rec.bases)
+
+    item_root = 'osmium::memory::Item'
+    typed = {}
+    for full, rec in O.rec_by_full.items():
+        if derives(full, item_root):
+            v = eff_itemtype(full)
+            if v is not None:
+                typed[full] = v
+    if not typed:
+        R.broken('no item class with an `itemtype` constant found')
+        return
+    owned_values = set(typed.values())
+    preds = sorted(O.compat_fn.items())
+    if not preds:
+        R.broken('no is_compatible_to predicate in the fact base')
+        return
+    for full, f in preds:
+        if not derives(full, item_root):
+            continue
+        acc = O.truth_set(f)
+        acc_v = {O.enum_by_name[e] for e in acc}
+        want_v = {v for k, v in typed.items() if derives(k, full)}
+        msgs = []
+        extra = sorted((acc_v & owned_values) - want_v)
+        lack = sorted(want_v - acc_v)
+        if extra:
+            msgs.append('accepts %s, the item type of %s which do(es) not derive from %s' % (
+                ', '.join(O.enum_by_value[v] for v in extra),
+                ', '.join(sorted(k for k, v in typed.items() if v in extra and not derives(k, full))), full))
+        if lack:
+            msgs.append('rejects %s although %s derive(s) from %s' % (
+                ', '.join(O.enum_by_value[v] for v in lack), ', '.join(sorted(k for k, v in typed.items() if v in lack and derives(k, full))), full))
+        is_root = want_v == owned_values
+        for v in sorted(acc_v - owned_values):
+            if not is_root and not _names_enumerator(f, v, f.params[0]['d']):
+                msgs.append('accepts %s, which is no class\'s itemtype, without naming it' % O.enum_by_value[v])
+        R.check(not msgs, 'K1-compat-set-equals-class-hierarchy', '%s::is_compatible_to#accepted-set' % full, f.site,
+                '%s::is_compatible_to %s (accepted: %s)' % (full, '; '.join(msgs), ', '.join(sorted(acc))))
+
+
 def run(ctx):
     R = ctx.R
     configs = ['ndebug14'] if ctx.tier == 'quick' else ['ndebug14', 'debug14', 'ndebug17', 'debug17']
@@ -2149,11 +2247,13 @@ def run(ctx):
     R.expect('C2-chain-step-calls-nth-then-next', 6)
     R.expect('R1-inputiterator-end-state', 1)
     R.expect('R1-inputiterator-refill', 1)
+    R.expect('K1-compat-set-equals-class-hierarchy', 14)  # Item, OSMEntity, OSMObject, 5 entities, 3 node-ref lists, RelationMemberList,
+                                                            # Collection<Tag>, Collection<ChangesetComment> (Collection<RelationMember>'s is hidden, never used)
     R.expect('R2-inputiterator-fresh-buffer-per-read', 2)   # no write through the shared pointer; fresh buffer after read()
     R.expect('P1-postfix-increment-agrees-with-prefix', 4)  # ItemIterator, DiffIterator, InputIterator, CollectionIterator
 
 
-PARTS = [dispatch_rules, diff_dispatch_rules, wrapper_rules, apply_rules, itemiterator_rules, diffiterator_rules,
+PARTS = [compat_rules, dispatch_rules, diff_dispatch_rules, wrapper_rules, apply_rules, itemiterator_rules, diffiterator_rules,
          diffobject_rules, apply_diff_rules, dynamic_rules, chain_rules, inputiterator_rules, postfix_rules, fresh_buffer_rules]
 
 
